@@ -19,6 +19,7 @@ type Violation struct {
 type checkFn func(c *Ctx, ev *Evidence) ([]Violation, error)
 
 var registry = map[string]checkFn{
+	"C01": runC01,
 	"C19": runC19,
 }
 
